@@ -1345,11 +1345,32 @@ func (c *compiler) checkIdentifierLName(name unistring.String, offset int) {
 func (c *compiler) enterDummyMode() (leaveFunc func()) {
 	savedBlock, savedProgram := c.block, c.p
 	if savedBlock != nil {
-		c.block = &block{
-			typ:      savedBlock.typ,
-			label:    savedBlock.label,
-			outer:    savedBlock.outer,
-			breaking: savedBlock.breaking,
+		// Clone the whole chain of enclosing blocks, not only the innermost one: a break/continue
+		// compiled in dummy mode records patch locations (offsets into the dummy program) in its
+		// target block and in every scope block it exits, and none of those may be a real block.
+		clones := make(map[*block]*block)
+		var prev *block
+		for b := savedBlock; b != nil; b = b.outer {
+			nb := &block{
+				typ:   b.typ,
+				label: b.label,
+			}
+			clones[b] = nb
+			if prev != nil {
+				prev.outer = nb
+			} else {
+				c.block = nb
+			}
+			prev = nb
+		}
+		for b, nb := range clones {
+			if b.breaking != nil {
+				if cb := clones[b.breaking]; cb != nil {
+					nb.breaking = cb
+				} else {
+					nb.breaking = b.breaking
+				}
+			}
 		}
 	}
 	c.p = &Program{
